@@ -132,6 +132,15 @@ def run_unit(unit, repo, rlimit=30, seed=None, extra=None, tag='', perturb=False
                        fi.props)
         body.lines = (fi.gen_lo, fi.gen_hi)
         obs.append(body)
+        # an unlabelled loop invariant and the body obligation (panics, callee preconditions, spliced assertions) carry every
+        # labelled clause of the function: when one of them fails, the clauses were proved from an unproved premise.  So they serve
+        # every property any clause of the function serves (clause-level tags through `sharedprops` included).
+        allp = set()
+        for o in obs:
+            allp |= set(o.props)
+        for o in obs:
+            if o.kind == 'body' or re.match(r'^(invariant|ensures)#\d+$', o.label or ''):
+                o.props = sorted(allp)
         by_fn[id(fi)] = obs
         res.obls.extend(obs)
     # ---- hard failures of the tool itself
